@@ -43,6 +43,7 @@ import (
 	"testing"
 	"time"
 
+	"go.uber.org/multierr"
 	"go.uber.org/zap"
 	"go.uber.org/zap/zaptest/observer"
 
@@ -77,7 +78,8 @@ type vLayer struct {
 type vAttempt struct {
 	dur    int64
 	ok     bool
-	layers []vLayer // outermost first
+	layers []vLayer // outermost first: the primary chain the generator starts from
+	tree   *vErr    // the error actually returned (the chain, possibly combined with other errors)
 }
 
 type vScenario struct {
@@ -93,29 +95,71 @@ type vScenario struct {
 	evStop, evCancel       int // F2: Shutdown / cancel called from inside attempt k (-1 = never)
 }
 
-func vIsPerm(ls []vLayer) bool {
-	for _, l := range ls {
-		if l.code == 0 {
-			return true
-		}
-	}
-	return false
+// vErr is an error TREE: a wrapper (codes 0..4, one wrapped error), a combination of several errors
+// (code 5: errors.Join / fmt.Errorf with several %w / multierr.Combine) or the base error (code 6).
+type vErr struct {
+	code int
+	d    int64
+	sig  int
+	rem  []int64
+	sub  *vErr
+	kids []*vErr
+	jk   int // kind of combination: 0 errors.Join, 1 fmt.Errorf("%w | %w"), 2 multierr.Combine
 }
 
-func vThrottle(ls []vLayer) (int64, bool) {
-	for _, l := range ls {
-		if l.code == 1 {
-			return l.d, true
+func vChain(ls []vLayer) *vErr {
+	e := &vErr{code: 6}
+	for i := len(ls) - 1; i >= 0; i-- {
+		e = &vErr{code: ls[i].code, d: ls[i].d, sig: ls[i].sig, rem: ls[i].rem, sub: e}
+	}
+	return e
+}
+
+// vFind walks the tree depth first, a node before what it wraps, members left to right (the harness's own
+// statement of what "the error is / carries X" means; deliberately not written with errors.As).
+func vFind(e *vErr, pred func(*vErr) bool) *vErr {
+	if e == nil {
+		return nil
+	}
+	if pred(e) {
+		return e
+	}
+	if e.sub != nil {
+		return vFind(e.sub, pred)
+	}
+	for _, k := range e.kids {
+		if f := vFind(k, pred); f != nil {
+			return f
 		}
+	}
+	return nil
+}
+
+func vWalk(e *vErr, f func(*vErr, int), depth int) {
+	if e == nil {
+		return
+	}
+	f(e, depth)
+	if e.sub != nil {
+		vWalk(e.sub, f, depth)
+	}
+	for _, k := range e.kids {
+		vWalk(k, f, depth+1)
+	}
+}
+
+func vIsPerm(e *vErr) bool { return vFind(e, func(x *vErr) bool { return x.code == 0 }) != nil }
+
+func vThrottle(e *vErr) (int64, bool) {
+	if f := vFind(e, func(x *vErr) bool { return x.code == 1 }); f != nil {
+		return f.d, true
 	}
 	return 0, false
 }
 
-func vPartial(sig int, ls []vLayer) ([]int64, bool) {
-	for _, l := range ls {
-		if l.code == 2 && l.sig == sig {
-			return l.rem, true
-		}
+func vPartial(sig int, e *vErr) ([]int64, bool) {
+	if f := vFind(e, func(x *vErr) bool { return x.code == 2 && x.sig == sig }); f != nil {
+		return f.rem, true
 	}
 	return nil, false
 }
@@ -172,7 +216,7 @@ func vSim(sc *vScenario) *vIdeal {
 			}
 		}
 		done := vOptMin(vOptMin(sc.deadline, tdl), sc.cancel)
-		e, ok, layers := s+a.dur, a.ok, a.layers
+		e, ok, layers := s+a.dur, a.ok, a.tree
 		if done >= 0 {
 			if !(done == 0 && s == 0) {
 				m(done, e)
@@ -274,7 +318,63 @@ func vSubset(r *vRand, p []int64) []int64 {
 }
 
 // vGenScript generates a script; cur tracks the payload a well-behaved backend would be answering about.
-func vGenScript(r *vRand, sc *vScenario, durs []int64, maxLen int) {
+// vMember generates one further member of a combined error (what another destination of a fanning-out
+// exporter reported).  mild: only members that do not change the kind of the outcome.
+func vMember(r *vRand, sc *vScenario, cur []int64, thr []int64, mild bool) *vErr {
+	if mild {
+		switch r.Intn(3) {
+		case 0:
+			return vChain(nil)
+		case 1:
+			return vChain([]vLayer{{code: 4}})
+		}
+		return vChain([]vLayer{{code: 2, sig: sc.sig, rem: vSubset(r, cur)}})
+	}
+	switch r.Pick(4, 2, 1, 2, 3, 1, 1, 1) {
+	case 0:
+		return vChain(nil)
+	case 1:
+		return vChain([]vLayer{{code: 0}})
+	case 2:
+		return vChain([]vLayer{{code: 4}, {code: 0}})
+	case 3:
+		return vChain([]vLayer{{code: 1, d: vPickMs(r, thr...)}})
+	case 4:
+		return vChain([]vLayer{{code: 2, sig: sc.sig, rem: vSubset(r, cur)}})
+	case 5:
+		return vChain([]vLayer{{code: 3}})
+	case 6: // a nested combination with a permanent member
+		return &vErr{code: 5, jk: r.Intn(3), kids: []*vErr{vChain(nil), vChain([]vLayer{{code: 0}})}}
+	}
+	return &vErr{code: 5, jk: r.Intn(3), kids: []*vErr{vChain([]vLayer{{code: 1, d: vPickMs(r, thr...)}}), vChain([]vLayer{{code: 4}})}}
+}
+
+// vCombine turns the primary chain into the returned error: in one case out of four it is combined with
+// one or two further errors (errors.Join / several %w / multierr), at a random position, possibly wrapped again.
+func vCombine(r *vRand, sc *vScenario, base []vLayer, cur []int64, thr []int64, mild bool) *vErr {
+	t := vChain(base)
+	if r.Intn(4) != 0 {
+		return t
+	}
+	members := []*vErr{t}
+	for i, n := 0, 1+r.Intn(2); i < n; i++ {
+		m := vMember(r, sc, cur, thr, mild)
+		pos := r.Intn(len(members) + 1)
+		members = append(members[:pos], append([]*vErr{m}, members[pos:]...)...)
+	}
+	j := &vErr{code: 5, jk: r.Intn(3), kids: members}
+	switch r.Intn(8) {
+	case 0, 1:
+		j = &vErr{code: 4, sub: j}
+	case 2:
+		if !mild {
+			j = &vErr{code: 1, d: vPickMs(r, thr...), sub: j}
+		}
+	}
+	return j
+}
+
+func vGenScript(r *vRand, sc *vScenario, durs []int64, maxLen int, thr []int64) {
 	n := 1 + r.Intn(maxLen)
 	cur := sc.payload
 	for i := 0; i < n; i++ {
@@ -286,7 +386,7 @@ func vGenScript(r *vRand, sc *vScenario, durs []int64, maxLen int) {
 		case 2:
 			a.layers = []vLayer{{code: 0}}
 		case 3:
-			a.layers = []vLayer{{code: 1, d: vPickMs(r, 10, 30, 90, 150, 260)}}
+			a.layers = []vLayer{{code: 1, d: vPickMs(r, thr...)}}
 		case 4:
 			rem := vSubset(r, cur)
 			sig := sc.sig
@@ -304,7 +404,7 @@ func vGenScript(r *vRand, sc *vScenario, durs []int64, maxLen int) {
 			a.layers = []vLayer{{code: 3}} // an exporter that itself reports a shutdown-classified error
 		case 6: // throttle around partial, or partial around throttle
 			rem := vSubset(r, cur)
-			l1, l2 := vLayer{code: 1, d: vPickMs(r, 30, 120, 200)}, vLayer{code: 2, sig: sc.sig, rem: rem}
+			l1, l2 := vLayer{code: 1, d: vPickMs(r, thr...)}, vLayer{code: 2, sig: sc.sig, rem: rem}
 			if r.Bool() {
 				l1, l2 = l2, l1
 			}
@@ -320,13 +420,17 @@ func vGenScript(r *vRand, sc *vScenario, durs []int64, maxLen int) {
 				a.layers = append(a.layers, vLayer{code: 4})
 			}
 			if r.Intn(12) == 0 {
-				a.layers = append(a.layers, vLayer{code: 1, d: vPickMs(r, 20, 400)})
+				a.layers = append(a.layers, vLayer{code: 1, d: vPickMs(r, thr...)})
 			}
 			if r.Intn(12) == 0 {
 				a.layers = append(a.layers, vLayer{code: 2, sig: sc.sig, rem: []int64{7}})
 			}
 			if r.Intn(25) == 0 {
 				a.layers = append(a.layers, vLayer{code: 0})
+			}
+			a.tree = vCombine(r, sc, a.layers, cur, thr, false)
+			if rem, has := vPartial(sc.sig, a.tree); has { // what a well-behaved backend answers about next
+				cur = rem
 			}
 		}
 		sc.script = append(sc.script, a)
@@ -366,7 +470,7 @@ func vGenF1(r *vRand) (*vScenario, *vIdeal) {
 		if r.Intn(10) < 3 {
 			sc.stop = int64(r.Intn(700)) * vMs
 		}
-		vGenScript(r, sc, []int64{5 * vMs, 10 * vMs, 20 * vMs, 40 * vMs, 10 * vMs, 160 * vMs, 230 * vMs}, 6)
+		vGenScript(r, sc, []int64{5 * vMs, 10 * vMs, 20 * vMs, 40 * vMs, 10 * vMs, 160 * vMs, 230 * vMs}, 6, []int64{10, 30, 90, 150, 260, 120, 200, 20, 400})
 		id := vSim(sc)
 		if id.verdict == 7 || id.margin < vMargin || id.total > vMaxTotal || (id.waits > 0 && id.minDelay < vMinDelay) {
 			continue
@@ -396,14 +500,7 @@ func vGenF2(r *vRand) *vScenario {
 	}
 	sc.sig = r.Intn(3)
 	sc.payload = vGenPayload(r)
-	vGenScript(r, sc, []int64{1 * vMs, 2 * vMs, 3 * vMs}, 7)
-	for i := range sc.script { // throttle delays small here
-		for j := range sc.script[i].layers {
-			if sc.script[i].layers[j].code == 1 {
-				sc.script[i].layers[j].d = vPickMs(r, 2, 12, 35, 70)
-			}
-		}
-	}
+	vGenScript(r, sc, []int64{1 * vMs, 2 * vMs, 3 * vMs}, 7, []int64{2, 12, 35, 70})
 	switch r.Intn(6) {
 	case 0, 1:
 		sc.evStop = r.Intn(4)
@@ -433,6 +530,10 @@ func vGenF3(r *vRand) *vScenario {
 		case 1:
 			a.layers = []vLayer{{code: 4}}
 		}
+		a.tree = vCombine(r, sc, a.layers, cur, nil, true)
+		if rem, has := vPartial(sc.sig, a.tree); has {
+			cur = rem
+		}
 		sc.script = append(sc.script, a)
 	}
 	sc.script = append(sc.script, vAttempt{dur: 1 * vMs, ok: true})
@@ -446,7 +547,7 @@ type vCall struct {
 	dlClass    int
 	dlSeen     int64 // ns since t0, -1 none
 	ret        error
-	layers     []vLayer // what the script made it return (nil for success / context error)
+	e          *vErr // what the script made it return (nil for success / context error)
 	ok         bool
 	ctxErr     bool
 	offSched   bool
@@ -549,31 +650,45 @@ func vRequest(sig int, ids []int64) Request {
 
 var vBaseErr = errors.New("backend unavailable")
 
-func vBuildErr(ls []vLayer) error {
-	err := error(vBaseErr)
-	for i := len(ls) - 1; i >= 0; i-- {
-		l := ls[i]
-		switch l.code {
-		case 0:
-			err = consumererror.NewPermanent(err)
-		case 1:
-			err = internal.NewThrottleRetry(err, time.Duration(l.d))
-		case 2:
-			switch l.sig {
-			case 0:
-				err = consumererror.NewLogs(err, vLogs(l.rem))
-			case 1:
-				err = consumererror.NewTraces(err, vTraces(l.rem))
-			default:
-				err = consumererror.NewMetrics(err, vMetrics(l.rem))
-			}
-		case 3:
-			err = experr.NewShutdownErr(err)
-		default:
-			err = fmt.Errorf("export failed: %w", err)
+func vBuildErr(e *vErr) error {
+	switch e.code {
+	case 6:
+		return vBaseErr
+	case 5:
+		kids := make([]error, len(e.kids))
+		for i, k := range e.kids {
+			kids[i] = vBuildErr(k)
 		}
+		switch e.jk {
+		case 1:
+			args := make([]any, len(kids))
+			for i := range kids {
+				args[i] = kids[i]
+			}
+			return fmt.Errorf("several destinations failed: %w"+strings.Repeat(" | %w", len(kids)-1), args...)
+		case 2:
+			return multierr.Combine(kids...)
+		}
+		return errors.Join(kids...)
 	}
-	return err
+	in := vBuildErr(e.sub)
+	switch e.code {
+	case 0:
+		return consumererror.NewPermanent(in)
+	case 1:
+		return internal.NewThrottleRetry(in, time.Duration(e.d))
+	case 2:
+		switch e.sig {
+		case 0:
+			return consumererror.NewLogs(in, vLogs(e.rem))
+		case 1:
+			return consumererror.NewTraces(in, vTraces(e.rem))
+		}
+		return consumererror.NewMetrics(in, vMetrics(e.rem))
+	case 3:
+		return experr.NewShutdownErr(in)
+	}
+	return fmt.Errorf("export failed: %w", in)
 }
 
 func vClassify(err error) int {
@@ -666,8 +781,8 @@ func vRunOnce(sc *vScenario, id *vIdeal) (*vObs, error) {
 			if a.ok {
 				c.ok = true
 			} else {
-				c.layers = a.layers
-				err = vBuildErr(a.layers)
+				c.e = a.tree
+				err = vBuildErr(a.tree)
 			}
 		case <-ctx.Done():
 			tm.Stop()
@@ -811,7 +926,7 @@ func vOracle(out *vOut, term string, sc *vScenario, obs *vObs) {
 	}
 	for k, c := range obs.calls {
 		last := k == n-1
-		perm := !c.ok && !c.ctxErr && vIsPerm(c.layers)
+		perm := !c.ok && !c.ctxErr && vIsPerm(c.e)
 		if !last && (c.ok || perm) {
 			fail("attempt-after-verdict", fmt.Sprintf("attempt %d returned ok=%v permanent=%v and was followed by another attempt", k, c.ok, perm))
 		}
@@ -820,14 +935,14 @@ func vOracle(out *vOut, term string, sc *vScenario, obs *vObs) {
 		}
 		if !last {
 			want := c.payload
-			if rem, has := vPartial(sc.sig, c.layers); has && !c.ctxErr {
+			if rem, has := vPartial(sc.sig, c.e); has && !c.ctxErr {
 				want = rem
 			}
 			if got := obs.calls[k+1].payload; !vSameIDs(got, want) {
 				fail("resent-not-remainder", fmt.Sprintf("attempt %d resent %v, expected %v", k+1, got, want))
 			}
 			gap := obs.calls[k+1].start - c.end
-			if d, has := vThrottle(c.layers); has && !c.ctxErr && gap < d-vMs {
+			if d, has := vThrottle(c.e); has && !c.ctxErr && gap < d-vMs {
 				fail("wait-shorter-than-throttle", fmt.Sprintf("attempt %d: waited %d ns, backend asked for %d ns", k, gap, d))
 			}
 			if k < len(obs.delays) && gap < obs.delays[k]-vMs {
@@ -837,7 +952,7 @@ func vOracle(out *vOut, term string, sc *vScenario, obs *vObs) {
 		if k < len(obs.delays) {
 			lo, hi := vEnvelope(sc, k)
 			d := float64(obs.delays[k])
-			th, has := vThrottle(c.layers)
+			th, has := vThrottle(c.e)
 			has = has && !c.ctxErr
 			if has && d < float64(th) {
 				fail("wait-shorter-than-throttle", fmt.Sprintf("attempt %d: chosen delay %v below throttle %d", k, d, th))
@@ -890,6 +1005,16 @@ func vOracle(out *vOut, term string, sc *vScenario, obs *vObs) {
 	if obs.err != nil && lastc.ret != nil && !errors.Is(obs.err, lastc.ret) && !errors.Is(obs.err, vBaseErr) {
 		fail("final-error-does-not-wrap-last", obs.err.Error())
 	}
+	// classification of the returned error: errors.As semantics over the whole tree of the last exporter error
+	if obs.err != nil {
+		wantSd := obs.verdict == 5 || vFind(lastc.e, func(x *vErr) bool { return x.code == 3 }) != nil
+		if wantSd != obs.isShutdown {
+			fail("shutdown-classification-wrong", fmt.Sprintf("IsShutdownErr=%v, expected %v for %q", obs.isShutdown, wantSd, obs.err.Error()))
+		}
+		if wantPm := vIsPerm(lastc.e) && !lastc.ctxErr; wantPm != obs.isPerm {
+			fail("permanent-classification-wrong", fmt.Sprintf("IsPermanent=%v, expected %v for %q", obs.isPerm, wantPm, obs.err.Error()))
+		}
+	}
 	if obs.verdict == 5 && (obs.stopReal < 0 || !obs.isShutdown) {
 		fail("shutdown-error-without-shutdown", fmt.Sprintf("stopReal=%d IsShutdownErr=%v", obs.stopReal, obs.isShutdown))
 	}
@@ -903,7 +1028,7 @@ func vOracle(out *vOut, term string, sc *vScenario, obs *vObs) {
 	}
 	if obs.verdict == 2 && sc.maxel > 0 {
 		_, hi := vEnvelope(sc, n-1)
-		if th, has := vThrottle(lastc.layers); has && !lastc.ctxErr {
+		if th, has := vThrottle(lastc.e); has && !lastc.ctxErr {
 			hi = math.Max(hi, float64(th))
 		}
 		if float64(lastc.end)+hi < float64(sc.maxel-slack) {
@@ -914,7 +1039,7 @@ func vOracle(out *vOut, term string, sc *vScenario, obs *vObs) {
 		fail("gave-up-too-early", "deadline verdict without a deadline")
 	}
 	// a transient failure inside every limit, with nobody stopping: the retry must happen
-	if !lastc.ok && !lastc.ctxErr && sc.enabled && !vIsPerm(lastc.layers) && obs.stopReal < 0 && obs.cancelReal < 0 &&
+	if !lastc.ok && !lastc.ctxErr && sc.enabled && !vIsPerm(lastc.e) && obs.stopReal < 0 && obs.cancelReal < 0 &&
 		sc.deadline < 0 && sc.maxel == 0 {
 		fail("no-retry-although-allowed", fmt.Sprintf("verdict %d after a transient failure without any limit", obs.verdict))
 	}
@@ -936,14 +1061,25 @@ func vB(b bool) int64 {
 	return 0
 }
 
-func vLayerTerm(l vLayer) string {
-	switch l.code {
+// vTokens prints an error tree in prefix form (see coq/C05/Harness.v parse_err)
+func vTokens(e *vErr, out []string) []string {
+	switch e.code {
+	case 6:
+		return append(out, vPair(vZ(6), "[]"))
+	case 5:
+		out = append(out, vPair(vZ(5), vZs([]int64{int64(len(e.kids))})))
+		for _, k := range e.kids {
+			out = vTokens(k, out)
+		}
+		return out
 	case 1:
-		return vPair(vZ(1), vZs([]int64{l.d}))
+		out = append(out, vPair(vZ(1), vZs([]int64{e.d})))
 	case 2:
-		return vPair(vZ(2), vZs(append([]int64{int64(l.sig)}, l.rem...)))
+		out = append(out, vPair(vZ(2), vZs(append([]int64{int64(e.sig)}, e.rem...))))
+	default:
+		out = append(out, vPair(vZ(int64(e.code)), "[]"))
 	}
-	return vPair(vZ(int64(l.code)), "[]")
+	return vTokens(e.sub, out)
 }
 
 func vScriptTerm(sc *vScenario) string {
@@ -951,10 +1087,7 @@ func vScriptTerm(sc *vScenario) string {
 	for i, a := range sc.script {
 		ls := []string{vPair(vZ(9), "[]")}
 		if !a.ok {
-			ls = make([]string, len(a.layers))
-			for j, l := range a.layers {
-				ls[j] = vLayerTerm(l)
-			}
+			ls = vTokens(a.tree, nil)
 		}
 		it[i] = vPair(vZ(a.dur), vList(ls))
 	}
@@ -1080,12 +1213,19 @@ func TestVerifC05(t *testing.T) {
 			case c.ctxErr:
 				out.Stat("outcome_ctx_expired", 1)
 			default:
-				if len(c.layers) == 0 {
+				if c.e.code == 6 {
 					out.Stat("outcome_plain_transient", 1)
 				}
-				for _, l := range c.layers {
-					out.Stat(fmt.Sprintf("outcome_layer_%d", l.code), 1)
-				}
+				vWalk(c.e, func(x *vErr, depth int) {
+					switch {
+					case x.code == 5:
+						out.Stat(fmt.Sprintf("outcome_combination_kind_%d", x.jk), 1)
+					case x.code < 5 && depth == 0:
+						out.Stat(fmt.Sprintf("outcome_layer_%d", x.code), 1)
+					case x.code < 5:
+						out.Stat(fmt.Sprintf("outcome_layer_%d_inside_combination", x.code), 1)
+					}
+				}, 0)
 			}
 			out.Stat(fmt.Sprintf("deadline_class_%d", c.dlClass), 1)
 		}
